@@ -234,7 +234,15 @@ def complete_prefers_parent(rec, F):
                 ret = True
             ok = par and filt and cl and ret
     # filter closure tests is_pending
-    pend = any(any(lastseg(x["f"]) == "is_pending" for _, x in c.calls()) for c in F.closures_of(fn))
+    pend = False
+    for c in F.closures_of(fn):
+        for b2, x in c.calls():
+            if lastseg(x["f"]) == "is_pending":
+                # the closure's result is the is_pending() result itself
+                tl = sem.forward_taint(c, {x["dest"]["l"]}, through_calls=False)
+                if 0 in tl:
+                    consts = [s for _, _, s in c.stmts() if s["d"]["l"] == 0 and not s["d"]["p"] and s["r"]["k"] == "use" and s["r"]["a"].get("const")]
+                    pend = not any(s["r"]["a"].get("int") == "1" for s in consts) and True
     rec.inst(R, "complete:parent.filter(is_pending).or_else(get_runnable)", ok=ok and pend, loc=fn.loc)
     if not (ok and pend):
         rec.finding(R, "F4.complete/parent-first", "Fiber::complete does not return parent.filter(is_pending)…or_else(get_runnable)", loc=fn.loc, fn=fn.path)
